@@ -14,6 +14,19 @@ From BB Require Import BN Brute SpaceFacts TrapFacts PercolateFacts AttractorFac
   Strict PetriNet Control Meta FilterFacts PetriNetFacts TrappistFacts DiagramStruct DiagramSem1 DiagramCache
   DiagramDepth DiagramComplete Termination ControlFacts MetaFacts Candidates StrictFacts MinExpandFacts CandidatesFacts SymbolicTest SymbolicTestFacts Signed ReductionFacts ControlFacts2 Main Blocks BlocksFacts ObsFacts OwnerFacts CandidatesTerm
   PartialOwner BlockMath BlockComplete ASeeds ASeedsFacts LogChecks SkipRule SkipRuleFacts Names NamesFacts Perm PermFacts SCC SCCFacts SCCStruct ControlFacts3 SCCTerm FilterSym Main2 StrategyFacts ControlFacts4 SkipRuleFacts2 SCCComplete SCCAttr BlockComplete2 ControlFacts5 Iso SkipSem ControlFacts6.
+From BB Require Import PyLib PyLibPickle PySrcPickle PySrcPickleFacts PyLibCore PySrcCore PySrcCoreFacts PyLibCore2 PySrcCore2 PySrcCore2Facts PySrcInitFacts.
+
+(* translator tie: __setstate__ applied to the result of __getstate__ (both GENERATED from the current source, PySrcPickle.v) rebuilds the object attribute by attribute, given the AEON text round trip of the cleaned network and symbolic = AsynchronousGraph(network): the model's OPickle = identity *)
+Theorem C16_source_pickle_round_trip : forall (V : Type) (to_aeon from_aeon cleanup_network async_graph : V -> V) (o blank : pobj V), cleanup_network (from_aeon (to_aeon (o_network o))) = o_network o -> o_symbolic o = async_graph (o_network o) -> py_setstate V from_aeon cleanup_network async_graph blank (py_getstate V to_aeon o) = Some o.
+Proof. exact py_pickle_round_trip. Qed.
+
+(* the configuration, the graph, the node index, the Petri net and the NFVS come back verbatim, unconditionally *)
+Theorem C16_source_pickle_keeps_config : forall (V : Type) (to_aeon from_aeon cleanup_network async_graph : V -> V) (o blank o' : pobj V), py_setstate V from_aeon cleanup_network async_graph blank (py_getstate V to_aeon o) = Some o' -> o_config o' = o_config o /\ o_dag o' = o_dag o /\ o_node_indices o' = o_node_indices o /\ o_petri_net o' = o_petri_net o /\ o_nfvs o' = o_nfvs o.
+Proof. exact py_pickle_keeps_config. Qed.
+
+(* reclaim_node_data as generated from the source = Diagram.reclaim *)
+Theorem C16_source_reclaim_node_data : forall (fuel : nat) (N0 : net) (cfg : config) (pnc : nat -> bool) (w : pyst), exists w' : pyst, py_reclaim_node_data fuel N0 cfg pnc w = CNext w' Datatypes.tt /\ p_sd w' = reclaim (p_sd w) /\ p_idx w' = p_idx w.
+Proof. exact py_reclaim_node_data_spec. Qed.
 
 Theorem C16_reclaim_transparent : forall (fuel : nat) (N : net) (cfg : config) (d : sd) (h : list op), Forall2 (fun a b : sd * result => obs_eq (fst a) (fst b) /\ snd a = snd b) (run fuel N cfg d h) (run fuel N cfg (reclaim d) h).
 Proof. exact reclaim_transparent. Qed.
@@ -55,6 +68,9 @@ Proof. exact expand_aseeds_after_reclaim. Qed.
 Theorem C16_scc_after_reclaim : forall (fuel : nat) (N : net) (cfg : config) (d : sd) (maa : bool) (tape : tape_t), rel2 (expand_scc fuel N cfg d maa tape) (expand_scc fuel N cfg (reclaim d) maa tape).
 Proof. exact expand_scc_after_reclaim. Qed.
 
+Print Assumptions C16_source_pickle_round_trip.
+Print Assumptions C16_source_pickle_keeps_config.
+Print Assumptions C16_source_reclaim_node_data.
 Print Assumptions C16_reclaim_transparent.
 Print Assumptions C16_step_respects_observation.
 Print Assumptions C16_reclaim_obs_eq.
